@@ -732,6 +732,239 @@ def eval_history(chk, cls, init, seq, chans):
 
 
 # ----------------------------------------------------------------------
+# Part L: two / three LIVE objects of one class, configured differently, used in turn
+# Part E: error paths -- rejected calls raise and leave the object as it was
+# ----------------------------------------------------------------------
+L_CONFIGS = {
+    "EnhancedBD": [dict(metric=None), dict(metric="naive", ns=1), dict(metric="naive", ns=2),
+                   dict(metric="fixed", ns=1), dict(metric="fixed", ns=2), dict(metric="capacity"),
+                   dict(metric="effective_throughput"), dict(metric="fixed", ns=1, iPu=2.5),
+                   dict(metric="naive", ns=2, pe=10.0),
+                   dict(metric="fixed", ns=2, iPu=0.5, noise_var=0.1)],
+    "WhiteningBD": [dict(), dict(iPu=2.5), dict(pe=10.0), dict(iPu=0.5, noise_var=0.1, pe=0.1)],
+    "BlockDiagonalizer": [dict(method="block_diagonalize"), dict(method="block_diagonalize", iPu=2.5),
+                          dict(method="block_diagonalize", noise_var=10.0),
+                          dict(method="block_diagonalize_no_waterfilling"),
+                          dict(method="block_diagonalize_no_waterfilling", iPu=0.5, noise_var=1e-2)],
+}
+
+
+def l_create(cls):
+    from pyphysim.comm import blockdiagonalization as bdm
+    if cls == "EnhancedBD":
+        return bdm.EnhancedBD(2, H_INIT["iPu"], H_INIT["noise_var"], H_INIT["pe"])
+    if cls == "WhiteningBD":
+        return bdm.WhiteningBD(2, H_INIT["iPu"], H_INIT["noise_var"], H_INIT["pe"])
+    return bdm.BlockDiagonalizer(2, H_INIT["iPu"], H_INIT["noise_var"])
+
+
+def l_configure(cls, obj, cfg):
+    for a in ("iPu", "noise_var", "pe"):
+        if a in cfg:
+            setattr(obj, a, cfg[a])
+    if cls == "EnhancedBD":
+        apply_metric(obj, cfg.get("metric"), cfg.get("ns"))
+
+
+def l_run(cls, obj, cfg, chan, name, mc=None):
+    Kc, n, r, cnoise = H_CHANNELS[name]
+    if cls == "BlockDiagonalizer":
+        return getattr(obj, cfg["method"])(np.array(chan[:, :Kc * n]))
+    if mc is None:
+        mc = make_ext_channel(chan, Kc, n, r, cnoise)
+    return obj.block_diagonalize_no_waterfilling(mc)
+
+
+def l_relations(chk, cls, cfg, chan, name, res, case, tag):
+    Kc, n, r, cnoise = H_CHANNELS[name]
+    full = dict(H_INIT)
+    full.update({k: v for k, v in cfg.items() if k in H_INIT})
+    if cls == "BlockDiagonalizer":
+        Hp = chan[:, :Kc * n]
+        sv = np.linalg.svd(Hp, compute_uv=False)
+        newH, Ms = res
+        check_plain(chk, Hp, Kc, n, full["iPu"], full["noise_var"], cfg["method"], newH, Ms,
+                    np.linalg.pinv(np.asarray(newH)), case, float(sv[0] / sv[-1]), float(sv[0]),
+                    tag="[%s]" % tag)
+    else:
+        kind = "whitening" if cls == "WhiteningBD" else "enhanced"
+        check_ext(chk, chan, Kc, n, r, cnoise, full["pe"], full["iPu"],
+                  (kind, cfg.get("metric"), cfg.get("ns")), res, case, tag=(tag,))
+
+
+def cfg_label(cfg):
+    return "/".join(str(cfg[k]) for k in ("method", "metric", "ns") if cfg.get(k) is not None) or "default"
+
+
+_FRESH = {}
+
+
+def l_fresh(chk, cls, ci, chans, name):
+    """result of ONE fresh object with configuration ci (memoised per process);
+    its relations are checked once"""
+    key = (cls, ci, name)
+    if key not in _FRESH:
+        cfg = L_CONFIGS[cls][ci]
+        obj = l_create(cls)
+        l_configure(cls, obj, cfg)
+        chan = np.asarray(chans[name][0])
+        res = l_run(cls, obj, cfg, chan, name)
+        case = {"part": "L", "cls": cls, "configs": [ci], "setup": "AcBc", "runs": [0],
+                "channel": name, "HA": chans["A"], "HB": chans["B"]}
+        l_relations(chk, cls, cfg, chan, name, res, case, "single_object")
+        _FRESH[key] = _copy_result(res)
+    return _FRESH[key]
+
+
+def live_scenarios(tier):
+    import itertools
+    for cls in ("EnhancedBD", "WhiteningBD", "BlockDiagonalizer"):
+        nc = len(L_CONFIGS[cls])
+        for a, b in itertools.permutations(range(nc), 2):
+            for setup in ("AcBc", "ABcc", "ABc'c"):
+                for runs in ((0, 1, 0), (1, 0, 1)):
+                    yield cls, (a, b), setup, runs, "B"
+            yield cls, (a, b), "AcBc", (0, 1, 0), "A"
+        m = min(nc, 7 if tier == "thorough" else 5)
+        for tri in itertools.permutations(range(m), 3):
+            yield cls, tri, "AcBc", (0, 1, 2, 0), "B"
+
+
+def run_live(chk, cls, cis, setup, runs, name, chans, case):
+    cfgs = [L_CONFIGS[cls][i] for i in cis]
+    chan = np.asarray(chans[name][0])
+    fresh = [l_fresh(chk, cls, i, chans, name) for i in cis]      # oracle side first
+    if setup == "AcBc":
+        objs = []
+        for cfg in cfgs:
+            o = l_create(cls)
+            l_configure(cls, o, cfg)
+            objs.append(o)
+    else:
+        objs = [l_create(cls) for _ in cfgs]
+        order = range(len(cfgs)) if setup == "ABcc" else reversed(range(len(cfgs)))
+        for i in order:
+            l_configure(cls, objs[i], cfgs[i])
+    Kc, n, r, cnoise = H_CHANNELS[name]
+    mc = None if cls == "BlockDiagonalizer" else make_ext_channel(chan, Kc, n, r, cnoise)
+    for step, i in enumerate(runs):
+        chk.count("eval_live_object_runs")
+        res = l_run(cls, objs[i], cfgs[i], chan, name, mc)
+        if not _same_result(res, fresh[i]):
+            others = sorted(set(cfg_label(c) for j, c in enumerate(cfgs) if j != i))
+            chk.fail((cls, "live_objects", "differs_from_single_object",
+                      cfg_label(cfgs[i]) + "_beside_" + "+".join(others)),
+                     dict(case, failing_step=step), observed="run %d of object %d" % (step, i),
+                     expected="bit-identical to one fresh object configured %r" % (cfgs[i],))
+            l_relations(chk, cls, cfgs[i], chan, name, res, dict(case, failing_step=step), "live_objects")
+    chk.nontriv(("L", cls, tuple(cis), setup, tuple(runs), name))
+
+
+def eval_live(chk, cls, cis, setup, runs, name, chans):
+    case = {"part": "L", "cls": cls, "configs": list(cis), "setup": setup, "runs": list(runs),
+            "channel": name, "HA": chans["A"], "HB": chans["B"]}
+    with chk.guard((cls, "live_objects"), case):
+        run_live(chk, cls, cis, setup, runs, name, chans, case)
+
+
+# ---- error paths --------------------------------------------------------
+def bad_calls(cls):
+    """(label, callable(obj), kind). kind 'must_raise': the call is invalid for the documented API"""
+    from pyphysim.modulators import fundamental
+    odd = make_ext_channel(np.hstack([families.generic(801, (3, 3), True, tag=9),
+                                      ext_channel(3, 1, 1, 801)]), 3, 1, 1, 0.1)
+    out = []
+    if cls == "EnhancedBD":
+        out += [("set_metric_unknown_name", lambda o: o.set_ext_int_handling_metric("lala")),
+                ("set_metric_naive_without_num_streams", lambda o: o.set_ext_int_handling_metric("naive")),
+                ("set_metric_fixed_without_num_streams", lambda o: o.set_ext_int_handling_metric("fixed")),
+                ("set_metric_effective_throughput_without_args",
+                 lambda o: o.set_ext_int_handling_metric("effective_throughput")),
+                ("set_metric_effective_throughput_without_packet_length",
+                 lambda o: o.set_ext_int_handling_metric("effective_throughput",
+                                                         {"modulator": fundamental.PSK(4)}))]
+    if cls in ("EnhancedBD", "WhiteningBD"):
+        out += [("run_channel_rows_not_multiple_of_users", lambda o: o.block_diagonalize_no_waterfilling(odd))]
+    else:
+        for m in ("block_diagonalize", "block_diagonalize_no_waterfilling"):
+            out += [(m + "_rows_not_multiple_of_users",
+                     lambda o, m=m: getattr(o, m)(families.generic(802, (3, 3), True, tag=9))),
+                    (m + "_one_dimensional_channel",
+                     lambda o, m=m: getattr(o, m)(families.generic(803, (4,), True, tag=9)))]
+    return out
+
+
+def error_cases():
+    for cls in ("EnhancedBD", "WhiteningBD", "BlockDiagonalizer"):
+        for ci in range(len(L_CONFIGS[cls])):
+            for k in range(len(bad_calls(cls)) + (2 if cls == "EnhancedBD" else 0)):
+                yield cls, ci, k
+
+
+def run_error_case(chk, cls, ci, k, chans, case):
+    from vmc import bfs
+    cfg = L_CONFIGS[cls][ci]
+    base = l_fresh(chk, cls, ci, chans, "B")
+    chan = np.asarray(chans["B"][0])
+    obj = l_create(cls)
+    l_configure(cls, obj, cfg)
+    calls = bad_calls(cls)
+    chk.count("eval_error_paths")
+    if k < len(calls):
+        label, fn = calls[k]
+        group = ("set_metric_unknown_name" if label == "set_metric_unknown_name" else
+                 "set_metric_missing_args" if label.startswith("set_metric") else "run_bad_channel")
+        d0 = bfs.digest(vars(obj))
+        raised = None
+        try:
+            fn(obj)
+        except Exception as e:  # noqa
+            raised = e
+        chk.outcome("error_paths", (cls, label, type(raised).__name__))
+        if raised is None:
+            chk.fail((cls, "error_path", group, "no_exception"), dict(case, label=label),
+                     observed="call returned", expected="an exception")
+        changed = bfs.digest(vars(obj)) != d0
+        again, later = None, "later run gives the same result"
+        try:
+            again = l_run(cls, obj, cfg, chan, "B")
+            if not _same_result(again, base):
+                later = "later run gives a DIFFERENT result"
+        except Exception as e:  # noqa
+            later = "later run raises %s: %s" % (type(e).__name__, e)
+        if changed:
+            # one signature per cause; the consequence for later runs goes into the message
+            chk.fail((cls, "error_path", group, "object_changed_by_rejected_call"), dict(case, label=label),
+                     observed={a: repr(v)[:60] for a, v in vars(obj).items()},
+                     expected="attributes as before the rejected call", msg="%s; %s" % (label, later))
+        elif later != "later run gives the same result":
+            chk.fail((cls, "error_path", group, "later_result_changed"), dict(case, label=label),
+                     observed=later, expected="bit-identical to the object's result before")
+    else:
+        # num_streams outside 1..n is outside the property's domain (the library accepts it
+        # silently); whatever it does, a later valid configuration must behave like a fresh object
+        ns = 0 if k == len(calls) else 4
+        for metric in ("naive", "fixed"):
+            try:
+                obj.set_ext_int_handling_metric(metric, {"num_streams": ns})
+                l_run(cls, obj, dict(cfg, metric=metric, ns=ns), chan, "B")
+            except Exception:  # noqa
+                pass
+        chk.count("eval_out_of_range_num_streams_recovery")
+        l_configure(cls, obj, cfg)
+        again = l_run(cls, obj, cfg, chan, "B")
+        if not _same_result(again, base):
+            chk.fail((cls, "error_path", "after_out_of_range_num_streams", "valid_reconfiguration_differs"),
+                     case, observed="result differs", expected="bit-identical to a fresh object")
+
+
+def eval_error_case(chk, cls, ci, k, chans):
+    case = {"part": "E", "cls": cls, "config": ci, "call": k, "HA": chans["A"], "HB": chans["B"]}
+    with chk.guard((cls, "error_path"), case):
+        run_error_case(chk, cls, ci, k, chans, case)
+
+
+# ----------------------------------------------------------------------
 def jobs_a(tier):
     for K, n in LAYOUTS:
         for fam, s, H in channel_members(K, n, tier, "A"):
@@ -823,6 +1056,10 @@ def main(chk):
         chans = hist_channels()
         for cls, init, seq in shard(hist_sequences(c.tier), i, nsh):
             eval_history(c, cls, init, seq, chans)
+        for cls, cis, setup, runs, name in shard(live_scenarios(c.tier), i, nsh):
+            eval_live(c, cls, cis, setup, runs, name, chans)
+        for cls, ci, k in shard(error_cases(), i, nsh):
+            eval_error_case(c, cls, ci, k, chans)
 
     run_shards(chk, worker)
     H = families.generic(0, (4, 4), True, tag=9)
@@ -846,6 +1083,7 @@ def main(chk):
     chk.require_outcomes("metric_x_rank", 12)
     chk.require_outcomes("removal_required", 3)
     chk.require_outcomes("history_states", 20)
+    chk.require_outcomes("error_paths", 8)
 
 
 def replay(case, chk):
@@ -857,6 +1095,15 @@ def replay(case, chk):
             return tuple(e)
         eval_history(chk, case["cls"], tuple(ev(e) for e in case["init"]),
                      tuple(ev(e) for e in case["history"]), chans)
+        return
+    if case["part"] in ("L", "E"):
+        chans = {"A": np.asarray(case["HA"], dtype=complex), "B": np.asarray(case["HB"], dtype=complex)}
+        _FRESH.clear()
+        if case["part"] == "L":
+            eval_live(chk, case["cls"], tuple(int(i) for i in case["configs"]), case["setup"],
+                      tuple(int(i) for i in case["runs"]), case["channel"], chans)
+        else:
+            eval_error_case(chk, case["cls"], int(case["config"]), int(case["call"]), chans)
         return
     K, n = int(case["K"]), int(case["n"])
     if case["part"] == "A":
